@@ -101,7 +101,10 @@ var argVarSets = []string{
 type argStats struct {
 	docs, invalid, sites, ok, panics, mismatches, specChecked, specDiff, nocoerce int
 	panicEx                                                                       map[string]string
-	specEx                                                                        []string
+	specEx                                                                        []string // differences explained by the variable links alone
+	specOther                                                                     []string // any other difference
+	specLinked                                                                    int
+	byDoc                                                                         map[string]int
 }
 
 func (c *Ctx) checkArgMaps(sdl string, report bool) {
@@ -131,7 +134,7 @@ func (c *Ctx) checkArgMaps(sdl string, report bool) {
 		}
 	}
 	replies := c.Worker.Map(reqs)
-	var dreqs, want, sreqs []string
+	var dreqs, want, sreqs, lreqs []string
 	var dref, sref []int
 	invalidSeen := map[string]bool{}
 	for i, rep := range replies {
@@ -152,13 +155,14 @@ func (c *Ctx) checkArgMaps(sdl string, report bool) {
 			continue
 		}
 		parts := strings.Split(rep, "\t")
-		for k := 0; k+3 <= len(parts); k += 3 {
+		for k := 0; k+4 <= len(parts); k += 4 {
 			dreqs = append(dreqs, parts[k])
 			want = append(want, parts[k+1])
 			dref = append(dref, i)
 			if refs[i].coerce {
 				// (where Go panics after successful coercion the specification must be undefined: a literal without value)
 				sreqs = append(sreqs, parts[k+2])
+				lreqs = append(lreqs, parts[k+3])
 				sref = append(sref, len(want)-1)
 			}
 		}
@@ -186,18 +190,28 @@ func (c *Ctx) checkArgMaps(sdl string, report bool) {
 		}
 	}
 	spec := c.Driver.Map(sreqs)
+	specLinked := c.Driver.Map(lreqs)
 	seen := map[string]bool{}
 	for k, sp := range spec {
 		st.specChecked++
 		w := want[sref[k]]
-		agree := impl.CanonFloats(sp) == impl.CanonFloats(w) || (sp == "NONE" && strings.HasPrefix(w, "PANIC"))
-		if !agree {
+		same := func(sp string) bool {
+			return impl.CanonFloats(sp) == impl.CanonFloats(w) || (sp == "NONE" && strings.HasPrefix(w, "PANIC"))
+		}
+		if !same(sp) {
 			st.specDiff++
 			r := refs[dref[sref[k]]]
-			key := r.doc
-			if !seen[key] && len(st.specEx) < 12 {
-				seen[key] = true
-				st.specEx = append(st.specEx, fmt.Sprintf("doc %s vars %s: go=%s spec=%s", r.doc, r.vars, w, sp))
+			ex := fmt.Sprintf("doc %s vars %s: go=%s spec=%s", r.doc, r.vars, w, sp)
+			if same(specLinked[k]) {
+				// Go follows the specification for the definitions its nodes are LINKED to: the
+				// difference is the link to another operation's variable definition
+				st.specLinked++
+				if !seen[r.doc] && len(st.specEx) < 12 {
+					seen[r.doc] = true
+					st.specEx = append(st.specEx, ex)
+				}
+			} else {
+				st.specOther = append(st.specOther, ex)
 			}
 		}
 	}
@@ -212,20 +226,30 @@ func (c *Ctx) checkArgMaps(sdl string, report bool) {
 	for _, k := range keys {
 		fmt.Printf("  %s — %s\n", k, st.panicEx[k])
 	}
-	fmt.Printf("direct C15 check (argSpec vs Go, coerced variables only): %d sites, %d differ\n", st.specChecked, st.specDiff)
+	fmt.Printf("direct C15 check (argSpec for the executed operation vs Go, coerced variables only): %d sites, %d differ; %d of them agree with argSpec for the LINKED variable definitions (link to another operation), %d do not\n",
+		st.specChecked, st.specDiff, st.specLinked, len(st.specOther))
 	for _, e := range st.specEx {
 		fmt.Println("  ", e[:min(700, len(e))])
 	}
+	for _, e := range st.specOther {
+		fmt.Println("   OTHER:", e[:min(700, len(e))])
+	}
+	c.Ev.Extra["argmap"] = map[string]int{"documents": st.docs, "documents_rejected_by_validation": st.invalid, "sites": st.sites, "go_ok": st.ok, "go_panic": st.panics,
+		"coercion_failed_pairs": st.nocoerce, "spec_checked_sites": st.specChecked, "spec_differs": st.specDiff, "spec_differs_by_links_only": st.specLinked}
 	c.Ev.Evals += st.sites
 	if !report {
 		return
 	}
 	for _, k := range keys {
-		c.Report("spec", "argmap-panic(R15-was-repaired)", fmt.Sprintf("ArgumentMap panics (%s) on a validated document: %s", k, st.panicEx[k]),
+		c.Report("spec", "argmap-panic", fmt.Sprintf("ArgumentMap panics (%s) on a validated document: %s", k, st.panicEx[k]),
 			map[string]any{"op": "argmap", "schema": sdl, "document": st.panicEx[k], "panic": k})
 	}
 	for _, e := range st.specEx {
-		c.Report("spec", "argmap-precedence:default-of-another-operation-linked", "argument map differs from argSpec: "+e[:min(900, len(e))],
+		c.Report("spec", "argmap-precedence:default-of-another-operation-linked", "argument map differs from argSpec for the executed operation (it follows the variable definition of another operation): "+e[:min(900, len(e))],
+			map[string]any{"op": "argmap", "schema": sdl, "example": e})
+	}
+	for _, e := range st.specOther {
+		c.Report("spec", "argmap-precedence:differs-from-spec", "argument map differs from argSpec: "+e[:min(900, len(e))],
 			map[string]any{"op": "argmap", "schema": sdl, "example": e})
 	}
 }
